@@ -681,3 +681,113 @@ func rpcAgreement(c *Ctx, id string) {
 		c.Undecided(id, "rpc-handler:Register", 0, "Handler.Register not found")
 	}
 }
+
+// rpcClientLifecycle (C10): the RPC client is handed out only connected, and closing it is idempotent.
+func rpcClientLifecycle(c *Ctx, id string) {
+	w := c.W
+	nc := w.Func("servicediscovery", "NewClient")
+	conn := w.Method("servicediscovery", "client", "connect")
+	cls := w.Method("servicediscovery", "client", "Close")
+	c.need(nc != nil && conn != nil && cls != nil, id, "servicediscovery.NewClient / client.connect / client.Close")
+	c.see(nc)
+	c.oae(id, "rpc-client:new", nc.Pos(), &Harness{Fn: nc, Bools: []string{"connectFails"}, Quiet: quietLog, NoInline: map[string]bool{fname(conn): true},
+		Oracle: func(st *State, name string, args []AV, res *types.Tuple) ([]AV, bool) {
+			if name == fname(conn) {
+				if st.B("connectFails") {
+					return []AV{avIface{sym: "errConnect"}}, true
+				}
+				return []AV{avIface{isNil: true}}, true
+			}
+			return nil, false
+		}}, func(st *State, out *Outcome) string {
+		if len(out.Effects(fname(conn))) != 1 {
+			return "does not connect exactly once"
+		}
+		cl, ok1 := out.Ret[0].(avIface)
+		e, ok2 := out.Ret[1].(avIface)
+		if !ok1 || !ok2 {
+			return "results not determined"
+		}
+		if st.B("connectFails") != !e.isNil || st.B("connectFails") != cl.isNil {
+			return fmt.Sprintf("connect failed=%v: returns client=%s, error=%s", st.B("connectFails"), avString(cl), avString(e))
+		}
+		return ""
+	}, "(client, nil) ⇔ connected; (nil, err) otherwise")
+	// the dial attempt
+	var attempt *ssa.Function
+	for _, f := range conn.AnonFuncs {
+		attempt = f
+	}
+	c.need(attempt != nil, id, "the dial attempt handed to Retry")
+	c.see(attempt)
+	recv := "c"
+	if len(attempt.FreeVars) > 0 {
+		recv = attempt.FreeVars[0].Name()
+	}
+	c.oae(id, "rpc-client:dial", attempt.Pos(), &Harness{Fn: attempt, Bools: []string{"dialFails"}, Quiet: quietLog,
+		Oracle: func(st *State, name string, args []AV, res *types.Tuple) ([]AV, bool) {
+			if name == "net/rpc.Dial" {
+				if st.B("dialFails") {
+					return []AV{avPtr{nil}, avIface{sym: "errDial"}}, true
+				}
+				return []AV{ptrResult(res, 0, "conn"), avIface{isNil: true}}, true
+			}
+			return nil, false
+		}}, func(st *State, out *Outcome) string {
+		e, ok := out.Ret[0].(avIface)
+		if !ok || st.B("dialFails") != !e.isNil {
+			return "dial failed=" + fmt.Sprint(st.B("dialFails")) + ", attempt returns " + avString(out.Ret[0])
+		}
+		conn, flag := out.Final(recv+".client"), out.Final(recv+".connected")
+		if st.B("dialFails") {
+			if conn != nil || flag != nil {
+				return "a failed dial changes the client's state"
+			}
+			return ""
+		}
+		if p, ok := conn.(avPtr); !ok || p.c == nil || p.c.sym != "conn" {
+			return "the connection is not kept: " + avString(conn)
+		}
+		if b, ok := flag.(avBool); !ok || !b.b {
+			return "the client is not marked connected"
+		}
+		return ""
+	}, "dial ok ⇒ connection kept, marked connected, nil; failed ⇒ its error, state untouched")
+	c.see(cls)
+	cr := cls.Params[0].Name()
+	c.oae(id, "rpc-client:close", cls.Pos(), &Harness{Fn: cls, Bools: []string{cr + ".connected", "closeFails"}, Quiet: quietLog, InlineAll: false,
+		Oracle: func(st *State, name string, args []AV, res *types.Tuple) ([]AV, bool) {
+			if name == "(*net/rpc.Client).Close" {
+				if st.B("closeFails") {
+					return []AV{avIface{sym: "errClose"}}, true
+				}
+				return []AV{avIface{isNil: true}}, true
+			}
+			return nil, false
+		}}, func(st *State, out *Outcome) string {
+		if out.Panicked {
+			return "panics"
+		}
+		n := len(out.Effects("(*net/rpc.Client).Close"))
+		e, ok := out.Ret[0].(avIface)
+		if !ok {
+			return "result not determined"
+		}
+		if !st.B(cr + ".connected") {
+			if n != 0 || !e.isNil {
+				return "closing a client that is not connected does something"
+			}
+			return ""
+		}
+		if n != 1 {
+			return fmt.Sprintf("the connection is closed %d times", n)
+		}
+		if b, ok := out.Final(cr + ".connected").(avBool); !ok || b.b {
+			return "the client stays marked connected: the next Close closes the connection again"
+		}
+		if st.B("closeFails") == e.isNil {
+			return "the connection's close error is not what Close returns"
+		}
+		return ""
+	}, "connected ⇒ connection closed once, marked disconnected, its error returned; otherwise nothing")
+}
